@@ -21,12 +21,14 @@ RS3 == {{"*"}, {"A"}, {"B"}, {"C"}, {"A", "B"}, {"A", "C"}, {"B", "C"}, {"A", "B
 RE(S) == RandomElement(S)
 Written == {d \in Docs : docs[d].seq > 0}
 Live == {d \in Docs : docs[d].seq > 0 /\ ~docs[d].del /\ docs[d].alt = None}
+Alive == {d \in Docs : docs[d].seq > 0 /\ ~docs[d].del}
 SimNext ==
   /\ Len(hist) < MaxWrites
   /\ \/ Put(RE(Docs), RE(PutSets))                                  \* create or update
      \/ (Written # {} /\ Put(RE(Written), RE(PutSets)))              \* update / channel move / resurrect
      \/ (Live # {} /\ Delete(RE(Live)))
      \/ (Live # {} /\ Delete(RE(Live)))
+     \/ (Live # {} /\ CoalSets # {} /\ Coalesced(RE(Live), RE(CoalSets), RE(CoalSets)))
      \/ (Live # {} /\ Conflict(RE(Live), RE(ConfSets)))
      \/ (Live # {} /\ ConflictWin(RE(Live), RE(ConfSets)))
 SimSpec == Init /\ [][SimNext]_vars
